@@ -368,38 +368,60 @@ def _method(tree, cname, mname):
     return ms[0]
 
 
-def translate_varchanges(lcapy_dir):
-    out = []
-    trees = {}
-    for fname, cname, mname, src, dst in CONV:
-        tree = trees.setdefault(fname, ast.parse(open(os.path.join(lcapy_dir, fname)).read()))
-        m = _method(tree, cname, mname)
-        body = [s for s in m.body if not (isinstance(s, ast.Expr) and isinstance(s.value, ast.Constant))
-                and not isinstance(s, (ast.Import, ast.ImportFrom))]
-        ir = None
-        kind = None
-        if len(body) == 1 and isinstance(body[0], ast.Return) and ast.unparse(body[0].value) == 'self':
-            ir, kind = ('var',), 'identity'
+def _conv_one(tree, fname, cname, mname, src, dst):
+    m = _method(tree, cname, mname)
+    body = [s for s in m.body if not (isinstance(s, ast.Expr) and isinstance(s.value, ast.Constant))
+            and not isinstance(s, (ast.Import, ast.ImportFrom))]
+    ir = None
+    kind = None
+    if len(body) == 1 and isinstance(body[0], ast.Return) and ast.unparse(body[0].value) == 'self':
+        ir, kind = ('var',), 'identity'
+    else:
+        for s in body:
+            if isinstance(s, ast.Assign) and isinstance(s.value, ast.Call) and ast.unparse(s.value.func) == 'self.subs' \
+                    and len(s.value.args) == 1 and not s.value.keywords:
+                if ir is not None:
+                    fail(s, 'two substitutions')
+                ir, kind = _scale_ir(s.value.args[0], dst), 'subs'
+        if ir is None:
+            fail(m, 'no self.subs(<scale>) found')
+        texts = [ast.unparse(s) for s in body]
+        if mname == 'inverse_fourier':
+            ok = any(t.startswith('result = inverse_fourier_transform(expr.sympy, fsym, tsym') for t in texts) and \
+                 texts[-1].startswith("return self.change(result, 'time'")
         else:
-            for s in body:
-                if isinstance(s, ast.Assign) and isinstance(s.value, ast.Call) and ast.unparse(s.value.func) == 'self.subs' \
-                        and len(s.value.args) == 1 and not s.value.keywords:
-                    if ir is not None:
-                        fail(s, 'two substitutions')
-                    ir, kind = _scale_ir(s.value.args[0], dst), 'subs'
-            if ir is None:
-                fail(m, 'no self.subs(<scale>) found')
-            texts = [ast.unparse(s) for s in body]
-            if mname == 'inverse_fourier':
-                ok = any(t.startswith('result = inverse_fourier_transform(expr.sympy, fsym, tsym') for t in texts) and \
-                     texts[-1].startswith("return self.change(result, 'time'")
-            else:
-                ok = texts[-1] == 'return result' and len(body) == 2
-            if not ok:
-                fail(m, 'unexpected body')
-        out.append({'cls': cname, 'method': mname, 'file': fname, 'line': m.lineno, 'src': src, 'dst': dst, 'ir': ir, 'kind': kind})
-    # fexpr.inverse_fourier works on self.expr directly (identity scale)
-    tree = trees['fexpr.py']
+            ok = texts[-1] == 'return result' and len(body) == 2
+        if not ok:
+            fail(m, 'unexpected body')
+    return {'cls': cname, 'method': mname, 'file': fname, 'line': m.lineno, 'src': src, 'dst': dst, 'ir': ir, 'kind': kind}
+
+
+SHORTCUT_GUARD = "(self.is_causal or assumptions.get('causal', False)) and self.is_stable"
+
+
+def _sconv_one(stree, fname, cname, mname, dst):
+    m = _method(stree, cname, mname)
+    ifs = [s for s in m.body if isinstance(s, ast.If)]
+    if len(ifs) != 1 or ast.unparse(ifs[0].test) != SHORTCUT_GUARD:
+        fail(m, 'shortcut guard (expected `%s`)' % SHORTCUT_GUARD)
+    b = ifs[0].body
+    a0 = ast.unparse(b[0])
+    if mname == 'fourier':
+        if a0 != 'tmp = self.subs(jw)' or not ast.unparse(b[1]).startswith('return self.change(tmp.subs(2 * pi * f, safe=True)'):
+            fail(m, 'fourier shortcut')
+        ir = ('mul', ('j',), ('mul', ('mul', ('num', 2, 1), ('pi',)), ('var',)))
+    else:
+        if not (isinstance(b[0], ast.Assign) and isinstance(b[0].value, ast.Call) and ast.unparse(b[0].value.func) == 'self'
+                and len(b[0].value.args) == 1):
+            fail(m, 'shortcut substitution')
+        ir = _scale_ir(b[0].value.args[0], dst)
+    if ast.unparse(m.body[-2]) != 'result = self.time(**assumptions).%s(**assumptions)' % mname:
+        fail(m, 'fallback')
+    return {'cls': cname, 'method': mname, 'file': fname, 'line': m.lineno, 'dst': dst, 'ir': ir}
+
+
+def _texpr_skeleton(lcapy_dir):
+    tree = ast.parse(open(os.path.join(lcapy_dir, 'fexpr.py')).read())
     m = _method(tree, 'FourierDomainExpression', 'inverse_fourier')
     texts = [ast.unparse(s) for s in m.body if not (isinstance(s, ast.Expr) and isinstance(s.value, ast.Constant))]
     if texts[0] != 'result = inverse_fourier_transform(self.expr, self.var, tsym, evaluate=evaluate)':
@@ -418,28 +440,34 @@ def translate_varchanges(lcapy_dir):
         mm = _method(ttree, 'TimeDomainExpression', nm)
         if ast.unparse(mm.body[-1]) != 'return self.FT(%s, evaluate, **assumptions)' % var:
             fail(mm, 'texpr.%s' % nm)
-    # sexpr shortcuts
-    stree = ast.parse(open(os.path.join(lcapy_dir, 'sexpr.py')).read())
+
+
+def translate_varchanges(lcapy_dir, errors=None):
+    """every conversion method separately: an untranslatable method is recorded in `errors`
+    ((part, detail) pairs) and the others are still translated"""
+    strict = errors is None
+    errors = [] if errors is None else errors
+    out = []
+    trees = {}
+    for fname, cname, mname, src, dst in CONV:
+        try:
+            tree = trees.setdefault(fname, ast.parse(open(os.path.join(lcapy_dir, fname)).read()))
+            out.append(_conv_one(tree, fname, cname, mname, src, dst))
+        except (Untranslatable, OSError, SyntaxError) as e:
+            errors.append(('varchange_%s_%s' % (cname, mname), str(e)))
+    try:
+        _texpr_skeleton(lcapy_dir)
+    except (Untranslatable, OSError, SyntaxError) as e:
+        errors.append(('texpr_FT_skeleton', str(e)))
     sout = []
     for fname, cname, mname, dst in SCONV:
-        m = _method(stree, cname, mname)
-        ifs = [s for s in m.body if isinstance(s, ast.If)]
-        if len(ifs) != 1 or ast.unparse(ifs[0].test) != "(self.is_causal or assumptions.get('causal', False)) and self.is_stable":
-            fail(m, 'shortcut guard')
-        b = ifs[0].body
-        a0 = ast.unparse(b[0])
-        if mname == 'fourier':
-            if a0 != 'tmp = self.subs(jw)' or not ast.unparse(b[1]).startswith('return self.change(tmp.subs(2 * pi * f, safe=True)'):
-                fail(m, 'fourier shortcut')
-            ir = ('mul', ('j',), ('mul', ('mul', ('num', 2, 1), ('pi',)), ('var',)))
-        else:
-            if not (isinstance(b[0], ast.Assign) and isinstance(b[0].value, ast.Call) and ast.unparse(b[0].value.func) == 'self'
-                    and len(b[0].value.args) == 1):
-                fail(m, 'shortcut substitution')
-            ir = _scale_ir(b[0].value.args[0], dst)
-        if ast.unparse(m.body[-2]) != 'result = self.time(**assumptions).%s(**assumptions)' % mname:
-            fail(m, 'fallback')
-        sout.append({'cls': cname, 'method': mname, 'file': fname, 'line': m.lineno, 'dst': dst, 'ir': ir})
+        try:
+            stree = trees.setdefault(fname, ast.parse(open(os.path.join(lcapy_dir, fname)).read()))
+            sout.append(_sconv_one(stree, fname, cname, mname, dst))
+        except (Untranslatable, OSError, SyntaxError) as e:
+            errors.append(('sshort_%s' % mname, str(e)))
+    if strict and errors:
+        raise Untranslatable('; '.join('%s: %s' % x for x in errors))
     return out, sout
 
 
@@ -488,16 +516,34 @@ def translate_doit(path_py):
 
 
 class Translation:
+    """parts are translated independently; `errors` lists (part, detail) of what could not be translated:
+    'term' (FourierTransformer.term: entries is None), 'inverse', 'doit', 'varchange_<cls>_<method>',
+    'sshort_<method>', 'texpr_FT_skeleton'"""
+
     def __init__(self, repo):
         ld = os.path.join(repo, 'lcapy')
         self.files = {}
+        self.errors = []
         for f in ('fourier.py', 'inverse_fourier.py', 'transformer.py', 'texpr.py', 'fexpr.py', 'omegaexpr.py',
                   'normfexpr.py', 'normomegaexpr.py', 'sexpr.py'):
-            self.files[f] = hashlib.sha256(open(os.path.join(ld, f), 'rb').read()).hexdigest()
-        self.entries, self.facts = translate_term(os.path.join(ld, 'fourier.py'))
-        self.inverse = translate_inverse(os.path.join(ld, 'inverse_fourier.py'))
-        self.varchanges, self.sconv = translate_varchanges(ld)
-        self.doit = translate_doit(os.path.join(ld, 'transformer.py'))
+            try:
+                self.files[f] = hashlib.sha256(open(os.path.join(ld, f), 'rb').read()).hexdigest()
+            except OSError as e:
+                self.errors.append(('file_' + f, str(e)))
+        self.entries, self.facts, self.inverse, self.doit = None, {}, None, None
+        try:
+            self.entries, self.facts = translate_term(os.path.join(ld, 'fourier.py'))
+        except (Untranslatable, OSError, SyntaxError) as e:
+            self.errors.append(('term', str(e)))
+        try:
+            self.inverse = translate_inverse(os.path.join(ld, 'inverse_fourier.py'))
+        except (Untranslatable, OSError, SyntaxError) as e:
+            self.errors.append(('inverse', str(e)))
+        self.varchanges, self.sconv = translate_varchanges(ld, self.errors)
+        try:
+            self.doit = translate_doit(os.path.join(ld, 'transformer.py'))
+        except (Untranslatable, OSError, SyntaxError) as e:
+            self.errors.append(('doit', str(e)))
 
 
 # ---- Coq printing -----------------------------------------------------------------------
@@ -543,7 +589,8 @@ def has_kind(ir, kinds):
 if __name__ == '__main__':
     import sys
     tr = Translation(sys.argv[1] if len(sys.argv) > 1 else '/repo')
-    for e in tr.entries:
+    print(tr.errors)
+    for e in tr.entries or []:
         print(e['line'], e['pid'], e['path'][-2:], '\n    fwd', coq_fn(e['fwd']) if not has_kind(e['fwd'], ('sympy', 'delegate', 'linear')) else e['fwd'],
               '\n    inv', coq_fn(e['inv']) if not has_kind(e['inv'], ('sympy', 'delegate', 'linear')) else e['inv'])
     for v in tr.varchanges:
